@@ -116,7 +116,9 @@ pub fn check_pca(c: &Case, obs: &mut Obs) {
     let cov = covariance(&x, 1.0);
     let (lam, evecs) = jacobi_eigh(&cov);
     let lam1 = lam.first().copied().unwrap_or(0.0);
-    if !(lam1 > 0.0) || !lam1.is_finite() {
+    // constant (or constant up to round-off) data is not in the generator's domain; shrinking can reach it
+    let x_max0 = max_abs(&x);
+    if !(lam1 > 1e-16 * x_max0 * x_max0) || !lam1.is_finite() {
         obs.skip("degenerate_covariance");
         return;
     }
